@@ -10,10 +10,10 @@ PROP = "C20"
 LEVEL = "exploration"
 RULE = ("differential: node A runs a generated history H (SDO traffic incl. aborted / mutated transfers and reconfiguration of 1017h, 1016h, "
         "1005h/1006h and PDO parameters, heartbeats, SYNCs, RPDOs, LSS requests, SDO client requests left busy, EMCY, NMT state changes, "
-        "application timers, ticks), then NMT reset communication (or reset node); node B is a FRESH executor initialised with exactly the "
+        "application timers, ticks, optionally ending between COTmrService and COTmrProcess; every 4th pair a sparse configuration with a single timer period and the reset taken while the expired event is unprocessed), then NMT reset communication (or reset node); node B is a FRESH executor initialised with exactly the "
         "dictionary values A holds after the reset; both receive the same probe sequence P (every service, >= 3 periods of every cyclic "
         "producer) and the traces (frames with relative ticks, callbacks, API results, driver calls) must be equal, frames of one tick "
-        "compared as a multiset; timer-pool occupancy per owner class must be equal apart from A's live application timers; "
+        "compared as a multiset; timer-pool occupancy per owner class must be equal apart from A's live application timers, which keep their slots and their exact period through H, reset and P; the timer processing right after the reset must run nothing of the old communication; "
         "non-trivial = pair whose H changed >= 1 communication parameter or left a transfer/timer open; distinct by (configuration, H)")
 ASSUMPTIONS = ["equivalence is established for the probes in P only", "1003h (error history bookkeeping) and CONodeGetErr are excluded from P",
                "H does not store an LSS configuration and ends in PRE-OPERATIONAL, OPERATIONAL or STOPPED", "no parameter groups (1010h/1011h) in these dictionaries (C17 covers them)"]
@@ -51,6 +51,57 @@ def make_cfg(rng):
     nid = rng.choice([1, 5, 100])
     cfg = H.full_config(rng, 1, nodeid=nid, drop=("1010",), tmrnum=32, freq=rng.choice([1000, 1000, 10000]))
     return cfg
+
+
+def setval(cfg, idx, sub, v):
+    if cfg.has(idx, sub):
+        o = cfg.get(idx, sub)
+        if o.kind == "D":
+            o.args[0] = v
+        elif o.kind == "V":
+            o.args[1] = v
+        elif o.kind == "H":
+            o.args[1] = v
+
+
+def make_sched(rng):
+    """Sparse configurations in which one or two timed services run with one period, and a history that ends between
+    COTmrService() and COTmrProcess(): the expired event waits in the elapsed list when the reset is handled."""
+    nid = rng.choice([1, 5, 100])
+    drop = ("1010", "18xx") if rng.random() < 0.7 else ("1010",)
+    cfg = H.full_config(rng, 1, nodeid=nid, drop=drop, tmrnum=32, freq=1000)
+    p = rng.choice([3, 5, 10, 20])
+    which = rng.choice(["sync", "hbprod", "hbc", "sync+hbprod", "hbc+hbprod", "all"])
+    setval(cfg, 0x1017, 0, p if "hbprod" in which or which == "all" else 0)
+    setval(cfg, 0x1005, 0, 0x40000080 if "sync" in which or which == "all" else 0x80)
+    setval(cfg, 0x1006, 0, p * 1000 if "sync" in which or which == "all" else 0)
+    hbn = None
+    for sub in range(1, 5):
+        if cfg.has(0x1016, sub):
+            o = cfg.get(0x1016, sub)
+            if hbn is None and ("hbc" in which or which == "all"):
+                hbn = o.args[0]
+                o.args[1] = p
+            else:
+                o.args[1] = 0
+    for c in range(4):
+        if cfg.has(0x1800 + c, 5) and rng.random() < 0.8:
+            setval(cfg, 0x1800 + c, 5, 0)
+            setval(cfg, 0x1800 + c, 3, 0)
+    hist = []
+    if rng.random() < 0.6:
+        hist.append("rx 0 2 01%02x" % nid)
+    if rng.random() < 0.5:
+        hist.append("tick %d" % rng.randint(0, 2 * p))
+    if hbn is not None:
+        hist.append("rx %x 1 %02x" % (0x700 + hbn, rng.choice([5, 0x7f, 4])))
+    napp = 0
+    if rng.random() < 0.3:
+        hist.append("tmrcreate %d %d 0" % (rng.choice([2, p, 50]), rng.choice([7, p, 40])))
+        napp = 1
+    hist.append("tick %d" % rng.randint(0, 3 * p))
+    hist.append("svc %d" % rng.choice([1, 2, p - 1, p, p, p + 1, 2 * p]))
+    return cfg, hist, napp
 
 
 def gen_history(rng, cfg, g):
@@ -132,6 +183,10 @@ def gen_history(rng, cfg, g):
             lines.append("tick %d" % rng.choice([1, 3, 10, 50, 120]))
     # leave the node in a state that accepts NMT commands
     lines.append("rx 0 2 %02x%02x" % (rng.choice([1, 128, 2, 128]), nid))
+    if rng.random() < 0.3:
+        # the reset is handled between the tick interrupt(s) and the timer processing of the background loop
+        lines.append("svc %d" % rng.choice([1, 1, 2, 5, 10, 50]))
+        interesting = True
     return lines, interesting, len(apptags)
 
 
@@ -183,18 +238,54 @@ def normalize(evs, base):
     return sorted(txs), out
 
 
-def run_pair(res, exe, rng, first):
-    cfg = make_cfg(rng)
+class AppTimers:
+    """Application timers of node A: created cyclic and never deleted by the workload, so every one of them has to keep its
+    period through H, the reset and P (exactly, while service and processing run back to back) and to keep its pool slot."""
+
+    def __init__(self, hist):
+        self.cycle = {}
+        self.last = {}
+        self.fired = {}
+        self.deferred = any(h.startswith("svc") for h in hist)
+        for h in hist:
+            if h.startswith("tmrcreate"):
+                f = h.split()
+                self.cycle[int(f[3])] = int(f[2])
+
+    def feed(self, evs, phase):
+        for e in evs:
+            if e[0] == "cb" and e[1] == "apptmr":
+                tag, t = int(e[2]), int(e[3])
+                if tag in self.last and not self.deferred and t - self.last[tag] != self.cycle.get(tag):
+                    return "application timer %d (cycle %s) fired at ticks %d and %d (%s)" % (tag, self.cycle.get(tag), self.last[tag], t, phase)
+                if tag in self.last and self.deferred and phase == "P" and self.fired.get((tag, "P"), 0) >= 1 and t - self.last[tag] != self.cycle.get(tag):
+                    return "application timer %d (cycle %s) fired at ticks %d and %d (%s)" % (tag, self.cycle.get(tag), self.last[tag], t, phase)
+                self.last[tag] = t
+                self.fired[(tag, phase)] = self.fired.get((tag, phase), 0) + 1
+        return None
+
+
+def run_pair(res, exe, rng, first, sched=False):
+    if sched:
+        cfg, hist, napp = make_sched(rng)
+        interesting = True
+    else:
+        cfg = make_cfg(rng)
+        g = H.Hostile(rng, cfg, 1)
+        hist, interesting, napp = gen_history(rng, cfg, g)
     nid = cfg.nodeid
-    g = H.Hostile(rng, cfg, 1)
-    hist, interesting, napp = gen_history(rng, cfg, g)
     kind = rng.choice([130, 130, 129])
     a = S.Sim(exe, cfg)
     b = None
+    app = AppTimers(hist)
     try:
         for evs in a.batch(hist):
             for iv in S.invs(evs):
                 res.violation("c20/inv-in-history", "invariant during H: " + iv, sim=a)
+                return
+            msg = app.feed(evs, "H")
+            if msg:
+                res.violation("c20/app-timer/period", msg + " | H: " + "; ".join(h[:40] for h in hist[-6:]), sim=a)
                 return
         a.cmd("geterr")
         stA = a.state()
@@ -207,6 +298,14 @@ def run_pair(res, exe, rng, first):
             res.violation("c20/bootup", "reset emitted %r, reference one boot-up frame" % [("%x" % x[1], x[3].hex()) for x in boot], sim=a)
             return
         baseA = a.tick
+        # the background loop goes on: timer processing right after the reset must find nothing of the old communication
+        ev = a.cmd("tproc")
+        msg = app.feed(ev, "P")
+        stale = [e for e in ev if e[0] == "tx" or (e[0] == "cb" and e[1] != "apptmr")]
+        if stale:
+            res.violation("c20/stale-timer-after-reset", "timer processing right after the reset ran %r | end of H: %s" % (
+                stale[:4], "; ".join(h[:40] for h in hist[-6:])), sim=a)
+            return
         a.cmd("geterr")
         tokens = a.dump()
         cfgB = clone_with_values(cfg, tokens)
@@ -216,6 +315,10 @@ def run_pair(res, exe, rng, first):
         for i, p in enumerate(P):
             ea = a.cmd(p)
             eb = b.cmd(p)
+            msg = app.feed(ea, "P")
+            if msg:
+                res.violation("c20/app-timer/period", msg + " | end of H: " + "; ".join(h[:40] for h in hist[-6:]), sim=a)
+                return
             na, nb = normalize(ea, baseA), normalize(eb, 0)
             if na != nb:
                 what = "frames" if na[0] != nb[0] else "callbacks/results"
@@ -230,6 +333,25 @@ def run_pair(res, exe, rng, first):
             if oa[k] != ob[k]:
                 res.violation("c20/timer-occupancy/%s" % k, "timer pool after reset + P: %r, fresh node + P: %r (H created %d application timers)" % (oa, ob, napp), sim=a)
                 return
+        # application timers survive the reset: same number of slots as right before it, and every one of them fired during P
+        if oa["app"] != occ_before["app"]:
+            res.violation("c20/app-timer/slots", "application timers in the pool: %d before the reset, %d after reset + P (H created %d) | end of H: %s" % (
+                occ_before["app"], oa["app"], napp, "; ".join(h[:40] for h in hist[-6:])), sim=a)
+            return
+        for tag in app.cycle:
+            if occ_before["app"] == len(app.cycle) and not app.fired.get((tag, "P")):
+                res.violation("c20/app-timer/stopped", "application timer %d (cycle %d) never fired after the reset | end of H: %s" % (
+                    tag, app.cycle[tag], "; ".join(h[:40] for h in hist[-6:])), sim=a)
+                return
+        res.counters["app_timer_firings_after_reset"] += sum(v for (t, ph), v in app.fired.items() if ph == "P")
+        if app.cycle:
+            res.counters["pairs_with_application_timers"] += 1
+        if any(h.startswith("svc") for h in hist):
+            res.counters["reset_between_service_and_process"] += 1
+            if occ_before.get("elapsed", 0):
+                res.counters["reset_with_unprocessed_elapsed_event"] += 1
+        if sched:
+            res.counters["sparse_schedule_pairs"] += 1
         res.evals += 1
         res.counters["probe_steps"] += len(P)
         res.counters["reset_node" if kind == 129 else "reset_com"] += 1
@@ -255,7 +377,7 @@ def work(item, ctx):
     res = F.Res()
     for h in range(item[2]):
         rng = random.Random(F.seed_for(ctx["seed"], "C20", item[1], h))
-        run_pair(res, ctx["exes"]["asan"], rng, item[1] == 0 and h == 0)
+        run_pair(res, ctx["exes"]["asan"], rng, item[1] == 0 and h == 0, sched=(h % 4 == 3))
     return res
 
 
